@@ -102,17 +102,43 @@ Section Glue.
       end
     end.
 
+  (* the inner `while self.core.pos() < line.end()` loop of sink_matched_inverted: a match that
+     starts before the end of the lines excluded so far extends them (its lines match too, the
+     non-inverted search reports them); returns the core and the end of the excluded lines *)
+  Fixpoint ml_inv_extend (fuel : nat) (c : core) (s : bytes) (le : nat) : option (core * nat) :=
+    match fuel with
+    | 0 => None
+    | S fuel' =>
+      if Nat.ltb (pos c) le then
+        match ml_find c s with
+        | Some (a, b) =>
+          if Nat.ltb a le then
+            let (nls, nle) := locate (lt_byte (c_lt cfg)) s a b in
+            ml_inv_extend fuel' (ml_advance c s a b) s (if Nat.ltb le nle then nle else le)
+          else Some (c, le)
+        | None => Some (c, le)
+        end
+      else Some (c, le)
+    end.
+
   Definition ml_sink_matched_inverted (m : ml) (s : bytes) : ml_outcome :=
     let c := ml_core m in
-    let '(rs, re, c) :=
+    let found : option (nat * nat * core) :=
       match ml_find c s with
-      | None => (pos c, length s, set_pos c (length s))
+      | None => Some (pos c, length s, set_pos c (length s))
       | Some (a, b) =>
         let (ls, le) := locate (lt_byte (c_lt cfg)) s a b in
-        (pos c, ls, ml_advance c s ls le)
+        match ml_inv_extend (S (length s)) (ml_advance c s a b) s le with
+        | Some (c', le') => Some (pos c, ls, set_pos c' le')
+        | None => None
+        end
       end in
-    if Nat.leb re rs then MOK true {| ml_core := c; ml_last := ml_last m |} else
-    ml_lift (ml_sink_context c s rs) (ml_last m) (fun c => ml_inv_loop (ml_last m) (S (length s)) c s rs re).
+    match found with
+    | None => MFUEL
+    | Some (rs, re, c) =>
+      if Nat.leb re rs then MOK true {| ml_core := c; ml_last := ml_last m |} else
+      ml_lift (ml_sink_context c s rs) (ml_last m) (fun c => ml_inv_loop (ml_last m) (S (length s)) c s rs re)
+    end.
 
   (* MultiLine::sink() *)
   Definition ml_sink (m : ml) (s : bytes) : ml_outcome :=
